@@ -217,7 +217,7 @@ example : validFrom .running lateReplyHistory = some .running ∧ ¬ TriggerFree
 
 /-- Replies, every listed control, a pen, text, two pause/resume cycles, redundant settings. -/
 def sampleHistory : List Op :=
-  [.replyMode 25 1, .replyMode 12 2, .replyShape 2, .ctl (some .altscreen) 1, .ctl (some .cursorvis) 0,
+  [.replyMode 25 1, .replyMode 12 2, .replyShape 2, .await 50, .ctl (some .altscreen) 1, .ctl (some .cursorvis) 0,
    .ctl (some .mouse) 2, .ctl (some .mouse) 2, .ctl (some .keypadApp) 1, .ctl (some .cursorshape) 3,
    .setpen (fun a => if a = .bold then some 1 else if a = .fg then some 200 else none), .print [104, 105],
    .pause, .resume, .ctl (some .mouse) 3, .setstr (some .titleText) [116], .pause, .resume, .ctl (some .altscreen) 0]
@@ -257,7 +257,7 @@ def PenSurvivesPause (cfg : Cfg) : Prop :=
 theorem pen_survives_pause_partial (cfg : Cfg) (toplevel : Bool) (m0 : VModes) (ops : List Op)
     (hv : validFrom .running ops = some .running) (hnt : PenTriggerFree cfg toplevel ops) :
     penShown (vtAfter cfg toplevel m0 ops).attrs (ghostAfter cfg toplevel ops).pen = true :=
-  penShown_of _ _ _ (prun_inv cfg ops _ _ .running .running {} (build_pinv toplevel m0) hv hnt)
+  penShown_of _ _ _ (prun_inv cfg ops _ _ .running .running {} (build_pinv toplevel m0) (build_tk toplevel) hv hnt)
 
 theorem pen_survives_pause (cfg : Cfg) (hr : cfg.resumeResendsPen = true) : PenSurvivesPause cfg :=
   fun toplevel m0 ops hv =>
@@ -268,7 +268,7 @@ theorem pen_survives_pause (cfg : Cfg) (hr : cfg.resumeResendsPen = true) : PenS
 theorem cached_pen_is_logical (cfg : Cfg) (toplevel : Bool) (m0 : VModes) (ops : List Op) (ph : Phase)
     (hv : validFrom .running ops = some ph) (hnt : PenTriggerFree cfg toplevel ops) :
     (sysAfter cfg toplevel ops).term.pen = (ghostAfter cfg toplevel ops).pen :=
-  (prun_inv cfg ops _ _ .running ph {} (build_pinv toplevel m0) hv hnt).pen
+  (prun_inv cfg ops _ _ .running ph {} (build_pinv toplevel m0) (build_tk toplevel) hv hnt).pen
 
 /-- `setpen bold; pause; resume`: the terminal renders plain, the pen asked for (and cached) is bold; a
     following `setpen bold` writes nothing. -/
